@@ -223,6 +223,15 @@ func (m *ServerModel) checkGuard(h *HandlerInfo, st *HState, g Guard, exits []*E
 			if ex.St.Dead || (len(ex.Inl) > 0) != (pass == 1) {
 				continue
 			}
+			// among the exits of helpers, only those of helpers that are judged in this
+			// function's context (new private helpers) can be the guard's answer - not, say,
+			// DeleteFID's EBADF
+			if len(ex.Inl) > 0 {
+				inner := ex.Inl[len(ex.Inl)-1].Decl
+				if hf := m.L.FuncOf(m.Info.Defs[inner.Name].(*types.Func)); !m.transparent(hf) {
+					continue
+				}
+			}
 			hit := false
 			for _, p := range ex.St.Paths {
 				if pathHasAll(h.canonFacts(p), g.Lits) {
